@@ -179,7 +179,7 @@ type raceCase struct {
 	Unbind string `json:"unbind"` // clunk | remove | replace-walk | replace-attach | disconnect
 }
 
-var raceOps = []string{"getattr", "read", "write", "readdir", "walk", "walkgetattr", "setattr", "mkdir", "fsync", "readlink", "statfs", "open", "xattrwalk", "unlinkat", "renameat"}
+var raceOps = []string{"getattr", "read", "write", "readdir", "walk", "walkgetattr", "setattr", "mkdir", "fsync", "readlink", "statfs", "open", "xattrwalk", "unlinkat", "renameat", "create", "symlink", "mknod", "link"}
 var raceUnbinds = []string{"clunk", "remove", "replace-walk", "replace-attach", "disconnect", "disconnect-other"}
 
 func runRaceCase(c raceCase) *fail {
@@ -254,6 +254,18 @@ func runRaceCase(c raceCase) *fail {
 	case "renameat":
 		setup = append(setup, tWalk(0, 1, "d"))
 		op, opName = tRenameat(1, "f", 1, "g"), "RenameAt"
+	case "create": // rebinds fid 1 to the created file, whose parent is the directory
+		setup = append(setup, tWalk(0, 1, "d"))
+		op, opName = tCreate(1, "created", 2, 0o644), "Create"
+	case "symlink":
+		setup = append(setup, tWalk(0, 1, "d"))
+		op, opName = tSymlink(1, "sl", "t"), "Symlink"
+	case "mknod":
+		setup = append(setup, tWalk(0, 1, "d"))
+		op, opName = tMknod(1, "nod", 0o600), "Mknod"
+	case "link":
+		setup = append(setup, tWalk(0, 1, "d"), tWalk(0, 4, "d", "f"))
+		op, opName = tLink(1, 4, "hl"), "Link"
 	default:
 		return failf("harness-op", "HARNESS-ERROR unknown op %s", c.Op)
 	}
@@ -352,6 +364,16 @@ func runRaceCase(c raceCase) *fail {
 			return failf("no-reply:race", "after releasing %s: %d of %d replies (%v)", opName, frames, want, err)
 		}
 		frames++
+	}
+	if c.Op == "create" && ub != nil {
+		// whatever fid 1 denotes now (the created file, or what replaced it), a
+		// Tremove goes through its parent directory's File: that must still be open
+		if r, err := s.Call(withTag(tRemove(1), 102)); err == nil && r.Type != refcodec.Rlerror {
+			frames++
+		}
+		if f := check("after a Tremove through the created fid"); f != nil {
+			return f
+		}
 	}
 	if s2 != nil && !s2.Close(20*time.Second) {
 		return failf("handle-did-not-return", "Handle of the second connection did not return after the race %s/%s", c.Op, c.Unbind)
